@@ -64,13 +64,17 @@ def extra_entries():
                     q, _ = torch.linalg.qr(torch.randn(f, f))
                     t._weight.copy_(scale * q)
                 elif hasattr(t, 'unconstrained_upper_diag'):
-                    t.unconstrained_upper_diag.fill_(float(np.log(np.expm1(scale))))
+                    t.unconstrained_upper_diag.fill_(float(scale if scale > 30 else np.log(np.expm1(scale))))
                 elif hasattr(t, 'log_upper_diag'):
                     t.log_upper_diag.fill_(float(np.log(scale)))
                 elif hasattr(t, 'unconstrained_diagonal'):
-                    t.unconstrained_diagonal.fill_(float(np.log(np.expm1(scale))))
+                    t.unconstrained_diagonal.fill_(float(scale if scale > 30 else np.log(np.expm1(scale))))
             return t
         return build
+    # determinants far outside the floating-point range (|det| = scale^f): log|det| itself is moderate
+    for scale in (1e-5, 3e4):
+        add('NaiveLinearHuge/80/%g' % scale, big(T.NaiveLinear, 80, scale), [80], extra={'big': True, 'huge': True})
+        add('LULinearHuge/80/%g' % scale, big(T.LULinear, 80, scale), [80], extra={'big': True, 'huge': True})
     for f in (80, 96):
         for scale in (0.25, 4.0):
             add('NaiveLinearBig/%d/%g' % (f, scale), big(T.NaiveLinear, f, scale), [f], extra={'big': True})
@@ -173,9 +177,10 @@ def jacobian_search(ctx, budget_s=300, entries=None, count=False):
     gen = torch.Generator().manual_seed(ctx.seed + 101)
     from .tcorr import build
     for e in (entries if entries is not None else all_entries('quick')):
-        if e.extra.get('big'):
+        big = bool(e.extra.get('big'))
+        if big and not (e.extra.get('huge') or e.name.endswith('/80/4') or e.name.endswith('/80/0.25')):
             continue
-        for regime in ('normal', 'fresh'):
+        for regime in (('fresh',) if big else ('normal', 'fresh')):
             try:
                 t = build(e, gen, torch.float64, regime)
                 if e.extra.get('warm_inverse'):
@@ -184,7 +189,7 @@ def jacobian_search(ctx, budget_s=300, entries=None, count=False):
                 x0 = R.make_inputs(e, 2, gen, torch.float64, False)
                 c = R.make_context(e, 2, gen, torch.float64)
                 t0 = t
-                for mode in MODES:
+                for mode in (('grad',) if big else MODES):
                     t, x = _mode_setup(mode, e, t0, x0, gen)
                     if t is None:
                         continue
@@ -196,7 +201,7 @@ def jacobian_search(ctx, budget_s=300, entries=None, count=False):
                         ctx.fail('forward raised %s on in-domain inputs%s' % (kind, '' if mode == 'grad' else ' (%s)' % mode), {'entry': e.name, 'regime': regime, 'mode': mode},
                                  match=dict({'class': e.name.split('/')[0], 'symptom': 'raises'}, **msfx))
                         continue
-                    for i in range(2):
+                    for i in range(1 if big else 2):
                         jl = _jac_logdet(t, x[i], c[i] if c is not None else None)
                         if jl is None or not math.isfinite(jl):
                             continue
